@@ -422,7 +422,7 @@ func main() {
 		shards := int(j["shards"].(float64))
 		if shards > *nproc {
 			shards = *nproc
-			j["shards"] = shards
+			j["shards"] = float64(shards)
 		}
 		for s := 0; s < shards; s++ {
 			jj := job{}
